@@ -5,7 +5,8 @@
 ID="$1"; WT="$2"; D="/verif/seeded/$ID"
 cd "$WT" || exit 2
 git checkout -q -- . ; git clean -qfd -e target; git checkout -q --detach "$(git -C /repo rev-parse HEAD)"
-if ! git apply "$D/patch.diff" 2>/dev/null; then echo "$ID STALE (patch does not apply to HEAD)"; exit 0; fi
+if ! git apply --3way "$D/patch.diff" >/dev/null 2>&1; then git reset -q --hard HEAD; echo "$ID STALE (patch does not apply to HEAD)"; exit 0; fi
+git reset -q
 cargo build --offline --release > /dev/null 2>&1 || { echo "$ID BUILD-FAILS"; git checkout -q -- .; exit 0; }
 for extra in "$D"/*.py "$D"/*.rs; do [ -f "$extra" ] && cp "$extra" "$(dirname "$D/demo.sh")/" 2>/dev/null; done
 timeout 1800 bash "$D/demo.sh" "$WT" > "/tmp/wt/reverify.$ID.out" 2>&1; RC=$?
